@@ -39,7 +39,8 @@ func (e *kvElection) validationLoop(ctx context.Context) {
 		case <-ctx.Done():
 			return
 		case <-ticker.C:
-			if !e.IsLeader() {
+			// (select picks at random when the term's context is done as well)
+			if ctx.Err() != nil || !e.IsLeader() {
 				return
 			}
 
